@@ -25,8 +25,13 @@ ENGINE = "E1"
 FUNCTIONS = ["ioflo.aid.odicting.odict.*", "ioflo.aid.odicting.lodict.*", "ioflo.aid.odicting.modict.*",
              "ioflo.aid.osetting.oset.* (+ collections.abc.MutableSet mixins it inherits)"]
 ASSUMPTIONS = [
-    "keys / set elements are drawn from small concrete alphabets through symbolic indices (selector-symbolic); "
-    "dict values, defaults and insert indices are genuinely symbolic ints",
+    "keys / set elements are drawn from small concrete alphabets through symbolic indices (selector-symbolic; the "
+    "alphabets per tier are in ALPHA and in each obligation's bounds); dict values, defaults and insert indices are "
+    "genuinely symbolic ints",
+    "on a FAILING path the harness pins the remaining symbolic inputs to one model value before the engine realises "
+    "the counterexample (one failing path per branch pattern instead of |domain|^k); confirmed paths are untouched",
+    "vacuity labels of an obligation whose every path is a replayed violation (modict popitem/poplistitem, dict-form "
+    "update/construct on the unchanged tree) are waived by a concrete probe and required again once the operation works",
     "pre-state is built directly (dict.__setitem__ + _keys / linked list through add) from descriptors and "
     "checked against the model before the operation; lodict pre-states hold lower-case keys only (its invariant)",
     "insert index restricted to 0..len (the statement is silent about negative / out-of-range indices)",
@@ -273,7 +278,7 @@ def h_dict(sym, cls_name, op, maxn, maxarg, pre_keys, arg_keys, form=None, proto
     rev = sym.bool("rev") if len(pairs) >= 2 else False
     od = raw_build(cls, pairs, rev)
     m = Model(pairs, norm)
-    same_dict(sym, od, m, "C39/%s/harness-pre-state" % cls_name, universe, cls_name)
+    same_dict(sym, od, m, "C39/%s/pre-state" % cls_name, universe, cls_name)
 
     def akey(tag="ak"):
         return arg_keys[sym.int(tag, 0, len(arg_keys) - 1)]
@@ -637,7 +642,7 @@ def h_modict(sym, op, maxn, maxarg, pre_keys, arg_keys, form=None, protos=(2,)):
     rev = sym.bool("rev") if len(lists) >= 2 else False
     od = raw_build_modict(lists, rev)
     m = MModel(lists)
-    same_modict(sym, od, m, "C39/modict/harness-pre-state", universe)
+    same_modict(sym, od, m, "C39/modict/pre-state", universe)
 
     def akey(tag="ak"):
         return arg_keys[sym.int(tag, 0, len(arg_keys) - 1)]
@@ -912,7 +917,7 @@ def h_oset(sym, op, alphabet, maxn, maxother):
     pre = pick_seq(sym, "e", alphabet, maxn)
     s = raw_oset(pre)
     ml = list(pre)
-    same_oset(sym, s, ml, "C39/oset/harness-pre-state", universe)
+    same_oset(sym, s, ml, "C39/oset/pre-state", universe)
 
     def elem():
         return alphabet[sym.int("ae", 0, len(alphabet) - 1)]
@@ -1083,7 +1088,7 @@ def obligations(tier):
     quick = tier == "quick"
     alpha = ALPHA["quick" if quick else "thorough"]
     protos = (2, pickle.HIGHEST_PROTOCOL) if quick else tuple(range(2, pickle.HIGHEST_PROTOCOL + 1))
-    budget = 240 if quick else 1500
+    budget = 240 if quick else 3000
     out = []
 
     def dict_ob(name, fn, cls_name, op, covers, maxn, maxarg, pre_keys, arg_keys, **extra):
@@ -1136,6 +1141,8 @@ def obligations(tier):
                         pre_keys[:2] if quick else pre_keys, arg_keys, form=form)
         elif op == "fromkeys":
             dict_ob(name, h_modict, "modict", op, covers, 1, 2 if quick else 3, pre_keys, arg_keys)
+        elif op == "pickle":                        # the C pickler realises every value: keep the state small
+            dict_ob(name, h_modict, "modict", op, covers, 2, 2, pre_keys, arg_keys)
         else:
             dict_ob(name, h_modict, "modict", op, covers, 2 if quick else 3, 2, pre_keys, arg_keys)
 
